@@ -69,6 +69,23 @@ def main(tier):
             a, b = rnd.sample(free, 2)
             scenes.append({'mode': 1, 'P': rnd.choice(PENS), 'buf': 0, 'opts': 0, 'shapes': [RC.rect_poly(r) for r in st],
                            'conns': [(a[0], a[1], rnd.choice(masks), b[0], b[1], rnd.choice(masks))]})
+    # seeded scenes of 2..6 separated rectangles on a larger lattice (even corners 2..30, odd endpoints): offset arrangements in which
+    # the cheapest route threads between rectangles while routes of equal bend count go round the outside -- where the order in which
+    # the search relaxes and re-relaxes an edge matters
+    for _ in range(2500 if quick else 40000):
+        boxes = []
+        for _ in range(rnd.randint(2, 6)):
+            for _try in range(20):
+                w, h = 2 * rnd.randint(1, 5), 2 * rnd.randint(1, 6)
+                x, y = 2 * rnd.randint(1, 13), 2 * rnd.randint(1, 13)
+                b = (x, y, x + w, y + h)
+                if all(b[2] + 2 <= o[0] or o[2] + 2 <= b[0] or b[3] + 2 <= o[1] or o[3] + 2 <= b[1] for o in boxes):
+                    boxes.append(b)
+                    break
+        free = [(x, y) for x in range(1, 34, 2) for y in range(1, 34, 2) if not any(RC.inside_closed((x, y), o) for o in boxes)]
+        a, b = rnd.sample(free, 2)
+        scenes.append({'mode': 1, 'P': rnd.choice([1, 10, 50, 50, 200, -8]), 'buf': 0, 'opts': 0, 'shapes': [RC.rect_poly(o) for o in boxes],
+                       'conns': [(a[0], a[1], 15, b[0], b[1], 15)]})
     out = RC.run_scenes(hr, d, 'orth', scenes)
     recs = make_records(out)
     rf = os.path.join(d, 'orth_recs.json')
@@ -96,7 +113,7 @@ def main(tier):
     ev.cov['distinct_nontrivial'] = nontriv
     ev.cov['traces_validated_against_impl'] = len(recs)
     ev.cov['rule'] = ('records = (scene, connector): scenes = every set of <=2 rectangles with corners on the even lattice 2..10 separated by >=2 (TLC-enumerated: %d single, %d pairs; '
-                      '%d scenes replayed), endpoints on the odd lattice in free space, direction masks {all, single, opposite pairs}, P in {1,3,10,50} and {0.001,0.008,0.05,0.5}; '
+                      '%d scenes replayed) + seeded scenes of 2..6 separated rectangles on the even lattice 2..38 (unrestricted ends), endpoints on the odd lattice in free space, direction masks {all, single, opposite pairs}, P in {1,3,10,50} and {0.001,0.008,0.05,0.5}; '
                       'non-trivial = route with at least one bend' % (len(singles), len(pairs), len(chosen)))
     for x in recs[:2]:
         ev.sample(x)
